@@ -43,6 +43,18 @@ var histIdx0 = func() int {
 	return int(it.At().Index)
 }()
 
+type hsample struct {
+	t  int64
+	fh *histogram.FloatHistogram
+}
+
+func (s hsample) T() int64                      { return s.t }
+func (s hsample) F() float64                    { return 0 }
+func (s hsample) H() *histogram.Histogram       { return nil }
+func (s hsample) FH() *histogram.FloatHistogram { return s.fh }
+func (s hsample) Type() chunkenc.ValueType      { return chunkenc.ValFloatHistogram }
+func (s hsample) Copy() chunks.Sample           { return hsample{s.t, s.fh.Copy()} }
+
 func staleFH() *histogram.FloatHistogram {
 	return &histogram.FloatHistogram{Sum: math.Float64frombits(value.StaleNaN)}
 }
